@@ -1,6 +1,6 @@
 # C05 - coroutine-mode scheduling: run-to-suspension, FIFO ready queue, full drain
 import re
-from ..core import norm, relloc, live, calls, evs, Broken, value_origin, Tracer, fmt_trace, rooted, has_back_edge, local_env, subst_path, efield, short, tests, cond_event
+from ..core import var_def, norm, relloc, live, calls, evs, Broken, value_origin, Tracer, fmt_trace, rooted, has_back_edge, local_env, subst_path, efield, short, tests, cond_event
 from ..rules import *
 
 EXPLANATION = ('Static analysis of the scheduling discipline: every function that makes a ready handle run branches on coroutine mode and, while a coroutine activation is on the '
@@ -82,11 +82,22 @@ def mode_split(ctx, db):
 
 
 def _ancestors(db, f):
+    """enclosing functions of a closure: the recorded parent chain, plus closures of the same parent that lexically contain it (a lambda
+    written inside another lambda is recorded with the outermost function as its parent)"""
     out = []
+    f0 = f
     while f is not None and f.get('parent_key'):
         f = db.get(f['parent_key'])
         if f is not None:
             out.append(f)
+    if f0.get('lambda') and f0.get('parent_key'):
+        m = re.search(r':(\d+):\d+$', f0['key'])
+        line = int(m.group(1)) if m else None
+        for k in db.keys():
+            g = db.rep(k)
+            if g.get('lambda') and g.get('parent_key') == f0['parent_key'] and g['key'] != f0['key'] and line is not None and g.get('lines') and g['lines'][0] <= line <= g['lines'][1] \
+                    and g['key'].rsplit(':', 2)[0] == f0['key'].rsplit(':', 2)[0]:
+                out.append(g)
     return out
 
 
@@ -100,8 +111,19 @@ def direct_resume(ctx, db):
             if e.k == 'call' and norm(e.get('callee')) == INSTALL[0]:
                 for a in e.get('args') or []:
                     p = a.get('path') or ''
+                    m_ = re.fullmatch(r'(?:move|forward)?\(?local:(\w+)\)?', p)
+                    if m_:
+                        # a named closure: auto resume_all = [this]{...}; install_queue_and_call(resume_all);
+                        d_ = var_def(f, m_.group(1), e.get('loc'))
+                        p = (d_ or {}).get('init') or p
                     if p.startswith('lambda@'):
                         passed_to_install.add(p[7:])
+                    m_ = re.search(r'fn:(.+?)\)*$', p) if 'fn:' in p else None
+                    if m_:
+                        # a named function handed to install_queue_and_call runs under the installed queue like a closure would
+                        for g_ in db.all_instances():
+                            if g_['nname'] == norm(m_.group(1)):
+                                passed_to_install.add(g_['key'])
             if e.k == 'lambda' and 'std::thread::thread' in (e.get('use') or ''):
                 thread_bodies.add(e['fn_key'])
             if e.k == 'construct' and norm(e.get('callee')) == 'std::thread::thread':
@@ -133,6 +155,8 @@ def direct_resume(ctx, db):
                 kind = 'K2 drain loop'
             elif f['key'] in passed_to_install:
                 kind = 'K2 callable executed by install_queue_and_call'
+            elif f.get('lambda') and any(a_['key'] in passed_to_install for a_ in _ancestors(db, f)):
+                kind = 'K2 closure defined and used inside a callable executed by install_queue_and_call (std::for_each over the handles)'
             elif oc == 'cocls::async::start_promise':
                 kind = 'K3 start of a not-yet-started child'
             elif oc in ('std::coroutine_handle::from_promise', 'cocls::generator::promise_type::next_async'):
@@ -193,6 +217,14 @@ def drain_before_restore(ctx, db):
     if not lams:
         raise Broken('anchor vanished: trailer lambda of install_queue_and_call')
     T = htracer(db)
+    # the local(s) of install_queue_and_call that hold the previous mode flag: initialised by the exchange on instance, or by a plain read of it
+    saved_names = set()
+    for f_ in db.fns('cocls::coro_queue::install_queue_and_call'):
+        for e_ in f_.events():
+            if e_.k == 'decl' and e_.get('init') in ('call(std::exchange)', INSTANCE):
+                ie = f_.ev(e_.get('init_ev')) if e_.get('init_ev') is not None else None
+                if e_.get('init') == INSTANCE or (ie is not None and (ie.get('args') or [{}])[0].get('path') == INSTANCE):
+                    saved_names.add(e_['var'])
     seen = set()
     for lf in lams:
         if lf['key'] in seen:
@@ -212,7 +244,7 @@ def drain_before_restore(ctx, db):
                 bad = bad or ('a path leaves without restoring the previous mode (the thread stays in coroutine mode)', tr)
             elif wi < fi:
                 bad = bad or ('the mode flag is restored before the queue is drained', tr)
-            elif tr[wi].get('rhs') not in ('capture:prev', 'local:prev', 'param:prev'):
+            elif not re.fullmatch(r'(capture|local|param):(%s)' % '|'.join(sorted(saved_names) or ['prev']), tr[wi].get('rhs') or ''):
                 bad = bad or ('the mode flag is not restored to the saved previous value', tr)
         ctx.ob(rid, lf, lf['key'], bad is None, 'flush_queue precedes the restore of coro_queue::instance on every path' + ('' if not bad else ' -- ' + bad[0]), desc=bad[0] if bad else None,
                trace=fmt_trace(bad[1]) if bad else None)
@@ -382,7 +414,13 @@ def install_only_inactive(ctx, db):
                 ok = bool(sib) and all((ret_expr(tr) or '').endswith('is_active)') or re.fullmatch(r'\(global:cocls::coro_queue::instance != nullptr\)', ret_expr(tr) or '') for tr in T.traces(sib[0]) if live(tr))
             ctx.ob(rid, f, sites[0]['loc'], ok, 'unguarded by table: ' + why, desc='initial awaiter no longer guarded by await_ready = is_active')
             continue
-        trs = [t for t in T.traces(f) if live(t)]
+        # a non-public helper of a class that is reached only from members of that class is judged inside its callers (it is expanded there)
+        roots_ = [f]
+        if not f.get('lambda') and f.get('access') != 0:
+            cs_ = [g for g in db.all_instances() if any(x.k == 'call' and x.get('callee_key') == f['key'] for x in g.events()) and is_helper(db, g, f)]
+            if cs_ and len({g['key'] for g in cs_}) == len({c for c in callers_of(db, f['nname'])}):
+                roots_ = list({g['key']: g for g in cs_}.values())
+        trs = [t for r_ in roots_ for t in T.traces(r_) if live(t)]
         ctx.paths(rid, len(trs))
         for e in sites:
             bad = None; n = 0
